@@ -407,3 +407,23 @@ inline std::string showc(const dsplib::arr_cmplx& a, int maxn = 8) {
 }
 }   // namespace vf
 #endif
+
+// ---- access to private members that a refactored tree may have renamed or removed (harnesses built with
+// -fno-access-control use them only for evidence such as state counts): VF_TRY(obj, expression using `o`, default)
+// evaluates the expression if it compiles for the object's type and yields the default otherwise.
+namespace vf {
+inline bool& private_state_missing() {
+    static bool b = false;
+    return b;
+}
+template<class T, class F, class D>
+auto try_member(T& t, F f, D, int) -> decltype(f(t)) {
+    return f(t);
+}
+template<class T, class F, class D>
+D try_member(T&, F, D d, long) {
+    private_state_missing() = true;
+    return d;
+}
+}   // namespace vf
+#define VF_TRY(obj, expr, dflt) ::vf::try_member(obj, [&](auto& o) -> decltype(expr) { return expr; }, dflt, 0)
